@@ -162,7 +162,7 @@ def entryIdErr (fragOn uniqOn pfxOn : Bool) (owner : String) (id pfx frag : Stri
   else none
 
 /-- `verificationMethodValidator.Validate`: loop over `document.VerificationMethod` only -/
-def validateVMs (thumb : Key → String) (on : Rule → Bool) (owner : String) : List NVM → List String → Res Unit
+def validateVMs (thumb : Key → String) (nilErr : Bool) (on : Rule → Bool) (owner : String) : List NVM → List String → Res Unit
   | [], _ => .ok ()
   | v :: vs, known =>
     match entryIdErr (on .vmFragment) (on .vmUnique) (on .vmPrefix) owner v.id v.pfx v.frag known with
@@ -170,10 +170,10 @@ def validateVMs (thumb : Key → String) (on : Rule → Bool) (owner : String) :
     | none =>
       match v.key with
       | .bad => .err "validate:vm:jwk"
-      | .none => .panic "verifyThumbprint:nil-jwk"
+      | .none => if nilErr then .err "validate:vm:jwk" else .panic "verifyThumbprint:nil-jwk"
       | .key k =>
         if on .vmThumbprint && thumb k ≠ v.frag then .err "validate:vm:thumbprint"
-        else validateVMs thumb on owner vs (v.id :: known)
+        else validateVMs thumb nilErr on owner vs (v.id :: known)
 
 /-- `basicServiceValidator.Validate` -/
 def validateSvcs (on : Rule → Bool) (owner : String) : List NSvc → List String → List String → Res Unit
@@ -185,23 +185,24 @@ def validateSvcs (on : Rule → Bool) (owner : String) : List NSvc → List Stri
       if on .svcTypeUnique && knownTypes.contains s.type then .err "validate:svc:duplicate-type"
       else validateSvcs on owner ss (s.id :: knownIds) (s.type :: knownTypes)
 
-def runValidator (thumb : Key → String) (on : Rule → Bool) (d : NDoc) : Validator → Res Unit
+def runValidator (thumb : Key → String) (nilErr : Bool) (on : Rule → Bool) (d : NDoc) : Validator → Res Unit
   | .w3c => validateW3C on d
-  | .nutsVM => validateVMs thumb on d.id d.vms []
+  | .nutsVM => validateVMs thumb nilErr on d.id d.vms []
   | .nutsService => validateSvcs on d.id d.services [] []
 
 /-- `did.MultiValidator.Validate`: first error wins -/
-def validateList (thumb : Key → String) (on : Rule → Bool) (d : NDoc) : List Validator → Res Unit
+def validateList (thumb : Key → String) (nilErr : Bool) (on : Rule → Bool) (d : NDoc) : List Validator → Res Unit
   | [] => .ok ()
   | v :: vs =>
-    match runValidator thumb on d v with
-    | .ok () => validateList thumb on d vs
+    match runValidator thumb nilErr on d v with
+    | .ok () => validateList thumb nilErr on d vs
     | .err e => .err e
     | .panic s => .panic s
 
-/-- `NetworkDocumentValidator().Validate(doc)`; `vals` is the regenerated list of composed validators -/
-def validate (thumb : Key → String) (vals : List Validator) (d : NDoc) : Res Unit :=
-  validateList thumb (fun _ => true) d vals
+/-- `NetworkDocumentValidator().Validate(doc)`; `vals` is the regenerated list of composed validators and `nilErr`
+    the regenerated fact "verifyThumbprint tests the JWK for nil" (today it does not: nil-interface panic) -/
+def validate (thumb : Key → String) (nilErr : Bool) (vals : List Validator) (d : NDoc) : Res Unit :=
+  validateList thumb nilErr (fun _ => true) d vals
 
 /-! ### resolver.go -/
 
@@ -341,6 +342,8 @@ structure Cfg where
   didThumb : Key → String   -- the same thumbprint as it appears in a DID (`nutsCrypto.Thumbprint`: base58)
   maxDepth : Nat
   validators : List Validator
+  vmNilJwkErr : Bool        -- verifyThumbprint guards against a nil JWK (else: panic)
+  findKeyNilJwkErr : Bool   -- findKeyByThumbprint guards against a nil JWK (else: panic)
   store : C10.Cfg
 
 def checkTransactionIntegrity (tx : Tx) : Res Unit :=
@@ -399,13 +402,13 @@ def ambControllers (c : Cfg) (s : Store) (doc : Doc) (tx : Tx) : Res (List Doc) 
   | .panic x => .panic x
 
 /-- `findKeyByThumbprint` over the controllers' capabilityInvocation entries -/
-def findKey (thumb : Key → String) (t : String) : List Entry → Res Bool
+def findKey (thumb : Key → String) (nilErr : Bool) (t : String) : List Entry → Res Bool
   | [] => .ok false
   | e :: es =>
     match KeyInfo.ofBody e.body with
     | .bad => .err "update:capinv-jwk"
-    | .none => .panic "findKeyByThumbprint:nil-jwk"
-    | .key k => if thumb k = t then .ok true else findKey thumb t es
+    | .none => if nilErr then .err "update:capinv-jwk" else .panic "findKeyByThumbprint:nil-jwk"
+    | .key k => if thumb k = t then .ok true else findKey thumb nilErr t es
 
 def capInvOf (cs : List Doc) : List Entry := cs.flatMap (fun d => d.f .capInv)
 
@@ -423,7 +426,7 @@ def handleUpdate (c : Cfg) (s : Store) (tx : Tx) (d : NDoc) : Res Store :=
       | .err e => .err ("update:signingkey:" ++ e)
       | .panic x => .panic x
       | .ok k =>
-        match findKey c.thumb (c.thumb k) (capInvOf ctrls) with
+        match findKey c.thumb c.findKeyNilJwkErr (c.thumb k) (capInvOf ctrls) with
         | .err e => .err e
         | .panic x => .panic x
         | .ok false => .err "update:not-signed-by-controller"
@@ -438,7 +441,7 @@ def callback (c : Cfg) (s : Store) (tx : Tx) (pd : Option NDoc) : Res Store :=
     match pd with
     | none => .err "unmarshal"
     | some d =>
-      match validate c.thumb c.validators d with
+      match validate c.thumb c.vmNilJwkErr c.validators d with
       | .err e => .err e
       | .panic x => .panic x
       | .ok () =>
